@@ -164,6 +164,16 @@ func c13Programs(tier string) []*Spec {
 		sp.Late = []Op{{K: "write", S: "too-late\n"}}
 		out = append(out, sp)
 	}
+	// render delay: once the delay is over and frames are being written, text goes out like anywhere else
+	{
+		sp := &Spec{Name: "c13-after-render-delay", Refresh: "auto", Q: -1, Delay: true}
+		sp.Bars = []BarSpec{{Total: 1}, {Total: 2}}
+		sp.Main = []Op{{K: "add", B: 0}, {K: "add", B: 1}}
+		// Bar.Wait on bar 0 returns only after it was rendered finished: rendering has started by then
+		sp.Clients = [][]Op{{{K: "undelay"}, {K: "incr", B: 0, N: 1}, {K: "barwait", B: 0}, {K: "write", S: "delay-alpha\n"}, {K: "write", S: "delay-bravo\n"}, {K: "incr", B: 1, N: 2}}}
+		sp.Late = []Op{{K: "write", S: "too-late\n"}}
+		out = append(out, sp)
+	}
 	// manual refresh with a final client refresh after the last write (main refreshes before Wait)
 	sp := &Spec{Name: "c13-manual", Refresh: "manual", Q: -1}
 	sp.Bars = []BarSpec{{Total: 1}}
